@@ -321,6 +321,9 @@ pub struct Def {
     pub encode: bool,
     /// declared through a macro_rules! with a `$ty:ty` field type (first field)
     pub via_macro: bool,
+    /// `#[repr(<int>)]` on an enum (allows explicit discriminants on variants with fields)
+    #[serde(default)]
+    pub repr: Option<String>,
 }
 
 impl Def {
@@ -498,6 +501,9 @@ pub fn print_def_opt(defs: &[Def], i: usize, with_typeinfo: bool) -> String {
         derives.push("Encode");
     }
     item.push_str(&format!("{ind}#[derive({})]\n", derives.join(", ")));
+    if let Some(r) = &d.repr {
+        item.push_str(&format!("{ind}#[repr({r})]\n"));
+    }
     // scale_info attributes
     let mut parts: Vec<String> = vec![];
     if !d.attr.skip_params.is_empty() {
@@ -735,6 +741,9 @@ impl Program {
             s.push_str(&format!("    let id{k} = reg.register_type(&meta_type::<{}>()).id;\n", r.rust(&c)));
         }
         s.push_str("    let portable: PortableRegistry = reg.into();\n    println!(\"REG {}\", vsupport::hex(&portable.encode()));\n");
+        // the portable registry against the compile-time definitions, through every reference
+        let roots_list: Vec<String> = self.roots.iter().enumerate().map(|(k, r)| format!("(meta_type::<{}>(), id{k})", r.rust(&c))).collect();
+        s.push_str(&format!("    match vsupport::sim(&portable, &[{}]) {{ Ok(n) => println!(\"SIM ok {{}}\", n), Err(e) => println!(\"SIM err {{}}\", e.replace('\\n', \" \")) }}\n", roots_list.join(", ")));
         for (k, r) in self.roots.iter().enumerate() {
             let ty = r.rust(&c);
             s.push_str(&format!("    println!(\"TYPE {k} {{}}\", id{k});\n"));
